@@ -1,8 +1,10 @@
 package main
 
 import (
+	"errors"
 	"fmt"
 	"math/rand"
+	"net"
 	"net/http"
 	"net/http/httptest"
 	"time"
@@ -44,6 +46,12 @@ func genC18(rng *rand.Rand, n int, emit func(Case), dist map[string]int) {
 		start := now
 		store := middleware.NewRateLimiterMemoryStoreWithConfig(middleware.RateLimiterMemoryStoreConfig{
 			Rate: rate.Limit(rateF), Burst: burstCfg, ExpiresIn: time.Duration(E) * c18Tick})
+		if burstCfg == 0 && rng.Intn(2) == 0 {
+			// the short constructor: default burst and the default ExpiresIn of 3 minutes
+			E = 180 * 512
+			store = middleware.NewRateLimiterMemoryStore(rate.Limit(rateF))
+			dist["short_store_constructor"]++
+		}
 		store.VerifSetClock(func() time.Time { return base.Add(time.Duration(now) * c18Tick) })
 		ran := false
 		rlCfg := middleware.RateLimiterConfig{Store: store,
@@ -59,7 +67,18 @@ func genC18(rng *rand.Rand, n int, emit func(Case), dist map[string]int) {
 			}
 			rlCfg.BeforeFunc = func(c echo.Context) {}
 		}
+		rlCfg.IdentifierExtractor = func(c echo.Context) (string, error) {
+			if c.Request().Header.Get("X-Id-Error") != "" {
+				return "", errors.New("no identifier") // the extractor fails: 403 through the error handler, the store is not consulted
+			}
+			return c.Request().Header.Get("X-Id"), nil
+		}
 		mw := middleware.RateLimiterWithConfig(rlCfg)
+		byRealIP := rng.Intn(5) == 0
+		if byRealIP {
+			mw = middleware.RateLimiter(store) // default configuration: identified by Context.RealIP (here: the peer address)
+			dist["default_middleware_by_real_ip"]++
+		}
 		h := mw(func(c echo.Context) error { ran = true; return nil })
 		e := echo.New()
 		nids := 1 + rng.Intn(4)
@@ -95,6 +114,14 @@ func genC18(rng *rand.Rand, n int, emit func(Case), dist map[string]int) {
 			id := ids[(off+rng.Intn(nids))%len(ids)]
 			req := httptest.NewRequest(http.MethodGet, "/", nil)
 			req.Header.Set("X-Id", id)
+			if byRealIP {
+				id = []string{"10.0.0.1", "10.0.0.2", "2001:db8::1", "2001:DB8::1"}[(off+rng.Intn(nids))%4]
+				req.RemoteAddr = net.JoinHostPort(id, "4711")
+			}
+			extractorFails := !byRealIP && rng.Intn(12) == 0
+			if extractorFails {
+				req.Header.Set("X-Id-Error", "1")
+			}
 			wrec := httptest.NewRecorder()
 			c := recycledContext(e, req, wrec)
 			ran = false
@@ -109,6 +136,13 @@ func genC18(rng *rand.Rand, n int, emit func(Case), dist map[string]int) {
 				} else {
 					status = 500
 				}
+			}
+			if extractorFails {
+				if ran || status != http.StatusForbidden {
+					ok, why = false, fmt.Sprintf("identifier extraction failed but the handler ran=%v, status %d (want 403, handler not run)", ran, status)
+				}
+				dist["extractor_errors"]++
+				continue // not an event of the store: later answers must be as if it never happened
 			}
 			admitted := ran
 			evs = append(evs, L(S(id), I64(now)))
